@@ -79,17 +79,19 @@ func (s *Shadow) clone() *Shadow {
 
 // Host is one NodeHost with its own strict in-memory file system.
 type Host struct {
-	Index   int
-	Addr    string
-	FS      *gvfs.MemFS // nil in wire mode
-	Disk    gvfs.FS     // the file system the NodeHost runs on (FS, or the real one in wire mode)
-	Listen  string      // wire mode: the address the NodeHost listens on (Addr is the proxy's)
-	Proxy   *Proxy
-	Dir     string
-	NH      *dragonboat.NodeHost
-	c       *Cluster
-	mu      sync.Mutex
-	crashed bool // between the crash instant and the restart
+	Index  int
+	Addr   string
+	FS     *gvfs.MemFS // nil in wire mode
+	Disk   gvfs.FS     // the file system the NodeHost runs on (FS, or the real one in wire mode)
+	Listen string      // wire mode: the address the NodeHost listens on (Addr is the proxy's)
+	Proxy  *Proxy
+	Dir    string
+	// importSite: armed power-loss site of ImportWithPowerLoss (-1 = passed)
+	importSite int32
+	NH         *dragonboat.NodeHost
+	c          *Cluster
+	mu         sync.Mutex
+	crashed    bool // between the crash instant and the restart
 	// CrashStamp is the clock value of the last crash instant (0 = never):
 	// anything a client observed from this host afterwards is "unknown".
 	CrashStamp int64
@@ -250,6 +252,68 @@ type recLogDB struct {
 }
 
 func (r *recLogDB) Name() string { return r.ILogDB.Name() }
+
+// ImportSnapshot (tools.ImportSnapshot opens the log store through the factory of the host, so
+// it gets this wrapper): the two power-loss sites of an import - right before and right after
+// the log store is rewritten. From the site on nothing the tool writes becomes durable.
+func (r *recLogDB) ImportSnapshot(ss pb.Snapshot, replicaID uint64) error {
+	site := atomic.LoadInt32(&r.h.importSite)
+	if site == ImportSiteBeforeLogStore && r.h.FS != nil {
+		r.h.FS.SetIgnoreSyncs(true)
+		atomic.StoreInt32(&r.h.importSite, -1)
+	}
+	err := r.ILogDB.ImportSnapshot(ss, replicaID)
+	if site == ImportSiteAfterLogStore && r.h.FS != nil {
+		r.h.FS.SetIgnoreSyncs(true)
+		atomic.StoreInt32(&r.h.importSite, -1)
+	}
+	return err
+}
+
+// Power-loss sites of ImportWithPowerLoss.
+const (
+	ImportSiteBeforeLogStore int32 = 1
+	ImportSiteAfterLogStore  int32 = 2
+)
+
+// ImportWithPowerLoss runs the import tool (fn) on a host that is down and cuts the power at the
+// given site; the tool runs to its end on a disk that no longer persists anything, then
+// everything that was not synced is discarded. reached tells whether the site was passed.
+func (h *Host) ImportWithPowerLoss(site int32, fn func() error) (reached bool, err error) {
+	if h.FS == nil {
+		return false, fn()
+	}
+	atomic.StoreInt32(&h.importSite, site)
+	func() {
+		defer func() {
+			if x := recover(); x != nil {
+				err = fmt.Errorf("panic: %v", x)
+			}
+		}()
+		err = fn()
+	}()
+	reached = atomic.SwapInt32(&h.importSite, 0) == -1
+	h.FS.ResetToSyncedState()
+	h.FS.SetIgnoreSyncs(false)
+	repairNames(h.FS, "/")
+	h.mu.Lock()
+	h.Restarts++
+	h.mu.Unlock()
+	return reached, err
+}
+
+// CheckSnapshotDirsOf opens the NodeHost of a host that is down, applies the directory oracle of
+// C16 (start-up cleanup, then: the recorded snapshot exists, complete and loadable, nothing else
+// is left) to a replica that is not on the restart list, and closes the NodeHost again.
+func (h *Host) CheckSnapshotDirsOf(shardID, replicaID uint64) error {
+	nh, err := dragonboat.NewNodeHost(h.nhConfig())
+	if err != nil {
+		return err
+	}
+	h.checkSnapshotDirs(startRec{shardID: shardID, replicaID: replicaID})
+	nh.Close()
+	return nil
+}
 
 func (r *recLogDB) SaveRaftState(updates []pb.Update, workerID uint64) error {
 	if d := r.h.c.Opt.SaveDelay; d > 0 {
@@ -781,7 +845,12 @@ func (h *Host) checkSnapshotDirs(s startRec) {
 	}
 	dir := find(h.Dir, 4)
 	if dir == "" {
-		return // the replica never got as far as creating its directory
+		// the replica never got as far as creating its directory: then no snapshot may be recorded
+		if rec, err := h.inner.GetSnapshot(s.shardID, s.replicaID); err == nil && rec.Index > 0 {
+			h.c.Sink.Violation("C16", "recorded-snapshot-dir-missing", fmt.Sprintf("host %d replica %d: the log store records snapshot %d (%s) but the replica has no snapshot directory at all", h.Index, s.replicaID, rec.Index, rec.Filepath),
+				map[string]interface{}{"host": h.Index, "shard": s.shardID, "replica": s.replicaID, "recorded": rec.Index, "restarts": h.Restarts})
+		}
+		return
 	}
 	sink := h.c.Sink
 	before, _ := fs.List(dir)
